@@ -333,8 +333,10 @@ def spec_C19(prop, tier, seed, t0):
 
 
 THR_ASSUME = [
-    "capacities are the built ones (quick: 1,2,3,8; thorough adds 5,16,64), not every DBGROUP_MAX_THREAD_NUM",
-    "schedules are sampled: thread churn, forced probe start positions and injected delays at the hook points",
+    "capacities are the built ones (quick: 1,2,3,8,100 and 70000 for mode=bigcap; thorough adds 5,16,64), not every "
+    "DBGROUP_MAX_THREAD_NUM",
+    "schedules are sampled: thread churn, forced probe start positions, injected delays at the hook points, signal "
+    "stalls at random instants and trap-flag stalls at single instruction boundaries",
     "ghost ownership / guard registration is recorded inside the real interval (after the call returned, before "
     "the releasing action), so a ghost clash implies a real one",
 ]
